@@ -365,8 +365,19 @@ h_basics_driver_init(void)
                 "[C12.driver-wiring] the driver object exposes exactly the contracted entry points");
         VASSERT(basic_device_count(d) == BasicDeviceKindCount,
                 "[C12.enumeration-table] device_count is the number of ids describe accepts: every documented device is enumerated, no undescribable id is");
-        free(d);
+        /* shutdown releases the driver and the lazily built constructor table (whether or
+         * not an open built it): nothing is left allocated (--memory-leak-check) */
+        memset(&bg, 0, sizeof(bg));
+        bg.made_kind = -1;
+        int built = nd_bool();
+        if (built)
+            (void)basics_make_storage(BasicDevice_Storage_Trash);
+        VASSERT(basic_device_shutdown_driver(d) == Device_Ok,
+                "[C12.driver-wiring] shutdown releases the driver object and the constructor table and reports Ok");
+        VCOVER(built, "shutdown with a constructor table built");
     }
+    VASSERT(basic_device_shutdown_driver(0) == Device_Ok,
+            "[C12.bad-input-is-error] shutdown of a NULL driver touches nothing");
     VCOVER(d != 0, "driver created");
     H_END;
 }
